@@ -3,7 +3,10 @@ import random, itertools
 from collections import Counter
 import common, gen, pool, drv
 
-THEOREMS = ["equiv_norm3_sound", "symExec_conc", "norm3_sound", "Norm.disjoint_sound", "Norm.keysDiffer_sound", "schedule_indep"]
+THEOREMS = ["equiv_norm3_sound", "symExec_conc", "norm3_sound", "Norm.disjoint_sound", "Norm.keysDiffer_sound", "schedule_indep",
+            "Spec.actEff_comm", "Spec.checked_schedules_agree", "Spec.termOf_sim", "Spec.runSchedule_sim",
+            "Spec.evalSpec_denote", "Spec.spec_schedule_independent", "Spec.scheduleMatches_sound",
+            "Spec.spec_denotes_block_under_every_schedule"]
 LOADS = ("MLOAD", "SLOAD", "KECCAK256", "SHA3")
 
 
@@ -98,7 +101,7 @@ def collect(tier, sd, rng, greedy=False, extra=()):
 def run(tier):
     sd = common.seed()
     rng = random.Random(sd * 8191 + 15)
-    po = common.proof_obligations("GasolVerif.Proofs.Schedule", THEOREMS)
+    po = common.proof_obligations("GasolVerif.Proofs.Schedule,GasolVerif.Proofs.SpecSim", THEOREMS)
     violations = [{"kind": "broken-proof-obligation", "what": b, "no_failing_input": True, "input": b} for b in po["broken"]]
     res = collect(tier, sd, rng)
     c = Counter()
@@ -148,7 +151,9 @@ def run(tier):
            "checker_cmd": "cd lean && lake build GasolVerif gvdrv; #print axioms " + ", ".join(THEOREMS),
            "trusted_base": ["Lean 4.33 kernel", "axioms: propext, Classical.choice, Quot.sound", "Evm.lean / Term.lean semantics",
                             "Models/Spec.lean evalSpec as the meaning of a specification under a schedule (defined by translation to terms)",
-                            "schedule_indep is proved abstractly; its instantiation to evalSpec (non-conflicting effects commute) is argued, not proved"],
+                            "spec_schedule_independent is proved for the model's evalSpec; its executable premises (namesOk, Nodup, isPerm, "
+                            "conflictsOrdered, respectsB) are run by SPECCHK on every specification the real front end emits",
+                            "parseSpec + the harness's JSON->line serialisation of the emitted specification (modelled, validated by scheduleMatches against the block)"],
            "axioms": po["axioms"], "programs": c["specs"], "disagreements_checked": c["verdict:conflict"] + c["verdict:mismatch"],
            "evaluations": c["schedules"], "distinct_nontrivial": c["specs-with-several-schedules"],
            "rule": "specifications the real front end produces for generated blocks (memory-heavy profiles: constant, unaligned, "
@@ -158,7 +163,7 @@ def run(tier):
            "samples": samples or [{"request": reqs[0][:300]}], "counters": dict(c)}
     return {"level": "translation_validation", "coverage": cov, "violations": violations,
             "assumptions": ["a specification whose comparison the normaliser cannot decide is counted under undecided, not as a violation",
-                            "partial: 'every admissible schedule' is proved abstractly (schedule_indep) and checked per specification by firstConflict plus sampled schedules"]}
+                            "per specification: the universal statement over schedules, states and environments is the kernel-checked theorem Spec.spec_denotes_block_under_every_schedule; its executable premises (namesOk, Nodup/isPerm, conflictsOrdered, respectsB, scheduleMatches for one schedule) are evaluated by the Lean driver on each specification the real front end emits; over blocks the check samples"]}
 
 
 def replay(v):
